@@ -165,9 +165,18 @@ pub fn check_local(labels: &[String]) -> Vec<Finding> {
 /// label lengths: text made of one label of length n (and a 2-label variant)
 pub fn check_lengths(lens: &[usize]) -> Vec<Finding> {
     let s: String = lens.iter().map(|n| "x".repeat(*n)).collect::<Vec<_>>().join(".");
-    let mut f = check_text(&s);
-    for x in f.iter_mut() {
-        x.case = json!({"kind": "lengths", "lens": lens});
+    // the same labels written with a trailing dot, a leading dot and a doubled dot: empty labels
+    // cost nothing on the wire, so the verdict must be the same
+    let mut variants = vec![s.clone(), format!("{}.", s), format!(".{}", s), format!("{}..", s)];
+    if let Some(i) = s.find('.') {
+        variants.push(format!("{}.{}", &s[..i], &s[i..]));
+    }
+    let mut f = Vec::new();
+    for (vi, v) in variants.iter().enumerate() {
+        for mut x in check_text(v) {
+            x.case = json!({"kind": "lengths", "lens": lens, "variant": vi});
+            f.push(x);
+        }
     }
     f
 }
